@@ -23,22 +23,28 @@ Oth(s) == [kind |-> "oth", str |-> s]
 \*  6: as 3, x passed as a strided view (same values)
 \*  7: as 1 with other values
 \*  8: as 1, xout/yout passed by keyword (replay schedules only)
-MCPool == 1..7
+\*  9: arrays + scalars 1, 0, False      (str() atoms: digit tokens 2000+d, False = 1002)
+\* 10: arrays + scalars 10, False        -- same concatenated str() as 9
+MCPool == (1..7) \cup {9, 10}
 MCArgs(p) ==
     CASE p = 1 -> <<Arr(<<1,2,3,4>>, F8, <<2>>), Arr(<<5,6,7,8>>, F8, <<2>>),
                     Arr(<<9,10>>, F8, <<1>>), Arr(<<11,12>>, F8, <<1>>)>>
       [] p = 2 -> <<Arr(<<1,2>>, F8, <<1>>), Arr(<<3,4>>, F8, <<1>>),
                     Arr(<<5,6,7,8>>, F8, <<2>>), Arr(<<9,10,11,12>>, F8, <<2>>)>>
       [] p = 3 -> <<Arr(<<1,2,3,4,5,6>>, F8, <<3>>), Arr(<<7,8,9,10,11,12>>, F8, <<3>>),
-                    Oth(NoneTok), Oth(NoneTok)>>
+                    Oth(<<NoneTok>>), Oth(<<NoneTok>>)>>
       [] p = 4 -> <<Arr(<<1,2,3,4,5,6>>, F4, <<6>>), Arr(<<7,8,9,10,11,12>>, F4, <<6>>),
-                    Oth(NoneTok), Oth(NoneTok)>>
+                    Oth(<<NoneTok>>), Oth(<<NoneTok>>)>>
       [] p = 5 -> <<Arr(<<1,2,3,4,5,6>>, F8, <<3, 1>>), Arr(<<7,8,9,10,11,12>>, F8, <<3, 1>>),
-                    Oth(NoneTok), Oth(NoneTok)>>
+                    Oth(<<NoneTok>>), Oth(<<NoneTok>>)>>
       [] p = 6 -> <<Arr(<<1,2,3,4,5,6>>, F8, <<3>>), Arr(<<7,8,9,10,11,12>>, F8, <<3>>),
-                    Oth(NoneTok), Oth(NoneTok)>>
+                    Oth(<<NoneTok>>), Oth(<<NoneTok>>)>>
       [] p = 7 -> <<Arr(<<21,22,23,24>>, F8, <<2>>), Arr(<<25,26,27,28>>, F8, <<2>>),
                     Arr(<<29,30>>, F8, <<1>>), Arr(<<31,32>>, F8, <<1>>)>>
+      [] p = 9 -> <<Arr(<<1,2,3,4,5,6>>, F8, <<3>>), Arr(<<7,8,9,10,11,12>>, F8, <<3>>),
+                    Oth(<<2001>>), Oth(<<2000>>), Oth(<<1002>>)>>
+      [] p = 10 -> <<Arr(<<1,2,3,4,5,6>>, F8, <<3>>), Arr(<<7,8,9,10,11,12>>, F8, <<3>>),
+                    Oth(<<2001, 2000>>), Oth(<<1002>>)>>
       [] p = 8 -> <<Arr(<<1,2,3,4>>, F8, <<2>>), Arr(<<5,6,7,8>>, F8, <<2>>),
                     Arr(<<9,10>>, F8, <<1>>), Arr(<<11,12>>, F8, <<1>>)>>
 \* semantic identity: memory layout is irrelevant (6 = 3)
@@ -47,7 +53,7 @@ MCFuncs == {1, 2}
 \* schedules for the replay use all four memoised functions and the keyword
 \* variant (pool member 8 = member 1 with xout/yout passed by keyword)
 HFuncs == 1..4
-HPool == 1..8
+HPool == 1..10
 
 Depth == TLCGet("level") <= MaxDepth
 
